@@ -10,6 +10,7 @@ package layer2
 // reference counts only (ndp.Conn cannot be constructed without a real ICMPv6 socket).
 
 import (
+	"bytes"
 	"errors"
 	"fmt"
 	"net"
@@ -351,7 +352,10 @@ func (w *l2world) lan() {
 		for _, r := range f.Replies {
 			var ef ethernet.Frame
 			var ap arp.Packet
-			if ef.UnmarshalBinary(r) == nil && ap.UnmarshalBinary(ef.Payload) == nil && ap.Operation == arp.OperationReply && ap.SenderIP.Equal(ip) {
+			if ef.UnmarshalBinary(r) == nil && ap.UnmarshalBinary(ef.Payload) == nil && ap.Operation == arp.OperationReply && ap.SenderIP.Equal(ip) &&
+				ap.TargetIP.Equal(net.IPv4(10, 20, 30, 99)) && bytes.Equal(ap.TargetHardwareAddr, peerMAC) {
+				// (a reply to the requester; an unsolicited announcement of the same address written
+				// by the periodic loop in the same window has target = the address itself)
 				answered = true
 			}
 		}
